@@ -17,11 +17,13 @@ WRITE_TYPE = ("write", "pwrite64", "writev", "fsync", "fdatasync", "close", "ren
 LINE = re.compile(r"^(\d+)\s+(\w+)\((.*)$")
 
 
-def strace(args, env, out=None, inject=None, timeout=30):
+def strace(args, env, out=None, inject=None, timeout=30, bind=None):
     cmd = ["strace", "-f", "-s", "5000", "-o", out or "/dev/null"]
     if inject:
         cmd += ["-e", "inject=" + inject]
     cmd += args
+    if bind:        # ld.so.preload is its own mount point (a file bind-mounted into a container): rename() over it fails with EBUSY
+        cmd = ["unshare", "-m", "--propagation", "private", "sh", "-c", 'mount --bind "$0" "$0" && exec "$@"', bind] + cmd
     try:
         p = subprocess.run(cmd, env=env, capture_output=True, timeout=timeout)
         return p.returncode
@@ -113,6 +115,9 @@ def run(tier, seed, replay=None):
     jobs = [(si, "plain") for si in range(len(chosen))] + [(si, "symlink") for si in range(len(chosen)) if chosen[si] in must or tier == "thorough"]
     # ... and with a path of exactly PATH_MAX - 1 bytes (the name of the temporary, path + ".tmp", no longer fits)
     jobs += [(si, "path4095") for si in range(len(chosen)) if chosen[si] in must][: (3 if tier == "quick" else 12)]
+    # ... and with ld.so.preload being a mount point of its own (private mount namespace per run)
+    if subprocess.run(["unshare", "-m", "--propagation", "private", "true"], capture_output=True).returncode == 0:
+        jobs += [(si, "bindmount") for si in range(len(chosen)) if chosen[si] in must and chosen[si][0]["disk"]["present"]][: (3 if tier == "quick" else 12)]
 
     def scenario(job):
         si, layout = job
@@ -147,7 +152,8 @@ def run(tier, seed, replay=None):
                 os.symlink("real.preload", path)
         reset()
         dry = os.path.join(d, "dry.txt")
-        rc = strace([b["snoopyctl"], cmd], env, out=dry)
+        bind = path if layout == "bindmount" else None
+        rc = strace([b["snoopyctl"], cmd], env, out=dry, bind=bind)
         calls = parse(dry)
         new = read_file(path)
         evs = events(calls, path)
@@ -171,7 +177,7 @@ def run(tier, seed, replay=None):
                 continue
             j = count[name]
             reset()
-            strace([b["snoopyctl"], cmd], env, inject="%s:signal=SIGKILL:when=%d" % (name, j))
+            strace([b["snoopyctl"], cmd], env, inject="%s:signal=SIGKILL:when=%d" % (name, j), bind=bind)
             disk = read_file(path)
             tmpc = read_file(path + ".tmp") if len(path) + 4 < 4096 else None
             done = [e for k, e in evs if k < i]
@@ -185,7 +191,7 @@ def run(tier, seed, replay=None):
                 for en in errnos:
                     reset()
                     ftr = os.path.join(d, "fault.txt")
-                    rc2 = strace([b["snoopyctl"], cmd], env, out=ftr, inject="%s:error=%s:when=%d" % (name, en, j))
+                    rc2 = strace([b["snoopyctl"], cmd], env, out=ftr, inject="%s:error=%s:when=%d" % (name, en, j), bind=bind)
                     disk = read_file(path)
                     bad = (disk or b"") not in (ok_old, ok_new)
                     ev_name = dict(evs).get(i, name)
@@ -197,7 +203,7 @@ def run(tier, seed, replay=None):
                                           % (cmd, ev_name, en, i, disk, old, new, rc2)))
         # short writes: the file system accepts only the first L bytes (RLIMIT_FSIZE = L with SIGXFSZ ignored, so write() returns a short count
         # and then fails with EFBIG): a partly written file must never be installed
-        if new is not None and new != old:
+        if new is not None and new != old and layout != "bindmount":
             cuts = sorted(set(range(0, len(new) + 1))) if (tier == "thorough" or len(new) <= 24) else sorted(set([0, 1, len(new) // 2, len(new) - 1, len(new)] + rnd.sample(range(len(new)), 6)))
             for L in cuts:
                 reset()
@@ -214,7 +220,7 @@ def run(tier, seed, replay=None):
                 runs.append(dict(kind="short", at=L, trace=None, disk=disk, bad=bad, exit=rc3, sig="short-write:%s:%s" % (cmd, "exit0" if rc3 == 0 else "failed"),
                                  what="%s while the file system accepts only %d of %d bytes: exit %d, file holds %r (old %r, new %r)" % (cmd, L, len(new), rc3, disk, old, new)))
         # a stale temporary left by an earlier killed run (longer than the new content) must not leak into the result
-        if layout == "path4095":
+        if layout in ("path4095", "bindmount"):
             shutil.rmtree(d, ignore_errors=True)
             return dict(beh=beh, layout=layout, calls=len(calls), events=[e for _, e in evs], runs=runs)
         reset()
@@ -250,7 +256,7 @@ def run(tier, seed, replay=None):
                 if ru["kind"] != "dry" and res["beh"][1]["disk"] != res["beh"][0]["disk"]:
                     nontrivial.add((si, ru["kind"], ru["at"], ru.get("errno")))
                 if ru["bad"]:
-                    rep.violation(ru["sig"] + ("" if res["layout"] == "plain" else ":" + res["layout"]), ({"symlink": "[ld.so.preload is a symbolic link] ", "path4095": "[the path of ld.so.preload is 4095 bytes long] "}.get(res["layout"], "")) + ru["what"],
+                    rep.violation(ru["sig"] + ("" if res["layout"] == "plain" else ":" + res["layout"]), ({"symlink": "[ld.so.preload is a symbolic link] ", "path4095": "[the path of ld.so.preload is 4095 bytes long] ", "bindmount": "[ld.so.preload is a mount point of its own] "}.get(res["layout"], "")) + ru["what"],
                                   dict(initial=res["beh"][0]["disk"], command=res["beh"][1]["c"], layout=res["layout"],
                                                               injected=dict(kind=ru["kind"], call_index=ru["at"], call=ru.get("call"), errno=ru.get("errno")),
                                                               protocol_events=res["events"]))
